@@ -1,6 +1,8 @@
 package rgsw
 
 import (
+	"math/bits"
+
 	"github.com/tuneinsight/lattigo/v6/core/rlwe"
 	"github.com/tuneinsight/lattigo/v6/ring"
 	"github.com/tuneinsight/lattigo/v6/ring/ringqp"
@@ -54,8 +56,8 @@ func (eval Evaluator) ExternalProduct(op0 *rlwe.Ciphertext, op1 *Ciphertext, opO
 
 		params := eval.GetRLWEParameters()
 
-		// If log(Q) * (Q-1)**2 < 2^{64}-1
-		if ringQ := params.RingQ(); levelQ == 0 && levelP == -1 && (ringQ.SubRings[0].Modulus>>29) == 0 {
+		// If the lazy accumulation of the 32-bit path cannot wrap
+		if ringQ := params.RingQ(); levelQ == 0 && levelP == -1 && fitsExternalProduct32Bit(ringQ.SubRings[0].Modulus, len(op1.Value[0].Value[0])) {
 			eval.externalProduct32Bit(op0, op1, c0QP.Q, c1QP.Q)
 			ringQ.AtLevel(0).IMForm(c0QP.Q, opOut.Value[0])
 			ringQ.AtLevel(0).IMForm(c1QP.Q, opOut.Value[1])
@@ -77,6 +79,18 @@ func (eval Evaluator) ExternalProduct(op0 *rlwe.Ciphertext, op1 *Ciphertext, opO
 		eval.BasisExtender.ModDownQPtoQNTT(levelQ, levelP, c1QP.Q, c1QP.P, opOut.Value[1])
 
 	}
+}
+
+// fitsExternalProduct32Bit reports whether the 32-bit path can be taken for the modulus q and the given number
+// of power-of-two digits: it accumulates, in 64 bits and without reduction, 2*digits products of a value
+// below q with a lazily reduced NTT output, which is below 6q.
+func fitsExternalProduct32Bit(q uint64, digits int) bool {
+	if q>>29 != 0 || digits < 1 || digits > 64 {
+		return false
+	}
+	/* #nosec G115 -- digits is in [1, 64] */
+	hi, _ := bits.Mul64(q*q, 12*uint64(digits))
+	return hi == 0
 }
 
 func (eval Evaluator) externalProduct32Bit(ct0 *rlwe.Ciphertext, rgsw *Ciphertext, c0, c1 ring.Poly) {
